@@ -121,13 +121,18 @@ def irf_items(cfg: dict, shifts) -> tuple[dict, dict]:
             pars["irfwd"] = frs(cfg["wdisp"])
         item["model_dispersion_with_wavenumber"] = bool(cfg["wn"])
     item["normalize"] = bool(cfg["normalize"])
+    if cfg.get("backsweep"):
+        item["backsweep"] = True
+        item["backsweep_period"] = "irfbs.1"
+        pars["irfbs"] = [BACKSWEEP_PERIOD]
     return item, pars
 
 
+BACKSWEEP_PERIOD = 13.0
 SCALE_TAB = [[1, 1], [3, 1], [1, 2]]  # IrfIndex!ScaleTab (cross-checked against the emitted eff.scales by the callers)
 
 
-def plain_irf_items(centres, widths, scales, normalize: bool, scalar: bool = False) -> tuple[dict, dict]:
+def plain_irf_items(centres, widths, scales, normalize: bool, scalar: bool = False, backsweep: bool = False) -> tuple[dict, dict]:
     """The plain (no shift, no dispersion) Gaussian IRF with the given float centres / widths / scales."""
     if scalar and len(centres) == 1:
         item = {"type": "gaussian", "center": "irfc.1", "width": "irfw.1"}
@@ -139,6 +144,10 @@ def plain_irf_items(centres, widths, scales, normalize: bool, scalar: bool = Fal
         item["scale"] = [f"irfs.{g + 1}" for g in range(len(scales))]
         pars["irfs"] = list(scales)
     item["normalize"] = bool(normalize)
+    if backsweep:
+        item["backsweep"] = True
+        item["backsweep_period"] = "irfbs.1"
+        pars["irfbs"] = [BACKSWEEP_PERIOD]
     return item, pars
 
 
